@@ -243,6 +243,27 @@ def assemble(template_path, unit, default_props, skip_fns=None):
             asm.dropped.append('%s: only the guards of its `match byte` arms are read (which opcode each arm handles); the handlers are separate functions' % kv['fn'])
             i += 1
             continue
+        if s.startswith('//@callsites '):
+            # `//@callsites file=… impl=Parser callee=statement allowed=declaration,if_statement`: which functions of the impl
+            # call `self.<callee>(` / `s.<callee>(`. Generated from the source on every run (a syntactic frame condition).
+            kv = _parse_kv(s[13:])
+            src = get_source(kv['file'])
+            callee = kv['callee']
+            allowed = set(kv['allowed'].split(','))
+            callers = set()
+            for itf in src.find_all(lambda c: c.kind == 'fn'):
+                par = itf.parent
+                if par is None or par.kind != 'impl' or par.name != kv['impl']:
+                    continue
+                body = _code_only(src.text_of(itf))
+                if re.search(r'\b(?:self|s)\s*\.\s*%s\s*\(' % re.escape(callee), body) and itf.name != callee:
+                    callers.add(itf.name)
+            unexpected = sorted(callers - allowed)
+            out.append('// generated from %s: callers of %s::%s = {%s}; allowed = {%s}' % (kv['file'], kv['impl'], callee, ', '.join(sorted(callers)), ', '.join(sorted(allowed))))
+            out.append('pub spec const UNEXPECTED_CALLERS_OF_%s: int = %d;%s' % (callee.upper(), len(unexpected), ('  // ' + ', '.join(unexpected)) if unexpected else ''))
+            asm.dropped.append('%s: call sites of %s::%s are found by text (`self.%s(` / `s.%s(`); calls through aliases or macros would not be seen' % (kv['file'], kv['impl'], callee, callee, callee))
+            i += 1
+            continue
         if s.startswith('//@lemma '):
             # names an obligation for a hand-written proof fn / verified spec that follows
             kv = _parse_kv(s[9:])
